@@ -64,12 +64,13 @@ theorem C01.gen_mark_finished (outs finished running : List Nat) :
 /-- the orchestrator's view of a model step -/
 def toPStep (st : Step) : PStep := { uuids := st.outs, required := st.req, isFG := st.kind == .fg }
 
-/-- what one visit of the loop body does to `finished_ids` / `currently_running_steps`, and which of the two un-translated
+/-- what one visit of the loop body does to `finished_ids` / `currently_running_steps`, and which of the un-translated
 callees it invokes, read off the model's `scan` event -/
 structure ScanView where
   finished : List Nat
   running : List Nat
-  processed : Bool      -- `_process_step_result` was called
+  processed : Bool      -- `_process_step_result` was entered (it polls the result queues first)
+  collectedFG : Bool    -- ... and reached `add_to_result_data_collection` + `_drop_data_if_possible` (a done feature-group step)
   executed : Bool       -- `_execute_step` was called
   deriving DecidableEq
 
@@ -77,42 +78,49 @@ def scanView (p : Plan) (s : St) (i : Nat) (st : Step) : ScanView :=
   let s' := stepEv p s (.scan i)
   { finished := s'.finished, running := s'.running,
     processed := !isStepDone st.outs s.finished && currentlyRunning st.outs s.running == some true,
+    collectedFG := decide (s'.collected = i :: s.collected) && st.kind == .fg,
     executed := decide (s'.started = i :: s.started) }
 
-def genView (st : Step) (s : St) (i : Nat) (toFinish : List Nat) : Except PyExc ScanView :=
-  match computeLoopBody (toPStep st) s.finished toFinish s.running (decide (i ∈ s.done)) [] with
+/-- `stepIsDone`: the step object's `step_is_done` flag; `uuidArrived`: its uuid came through a result queue.  The model's
+`i ∈ s.done` is "one of the two". -/
+def genView (st : Step) (s : St) (toFinish : List Nat) (stepIsDone uuidArrived : Bool) : Except PyExc ScanView :=
+  match computeLoopBody (toPStep st) s.finished toFinish s.running stepIsDone uuidArrived false [] with
   | .error e => .error e
-  | .ok (f, _, r, log) =>
-    .ok { finished := f, running := r, processed := log.contains "process_step_result", executed := log.contains "execute_step" }
+  | .ok (f, _, r, _, log) =>
+    .ok { finished := f, running := r, processed := log.contains "poll_result_queues",
+          collectedFG := log.contains "add_to_result_data_collection" && log.contains "drop_data_if_possible",
+          executed := log.contains "execute_step" }
 
-/-- **The loop body of `compute` is the model's `scan` event.**  For every plan, every state of the model that has not
-halted, every step with a non-empty uuid set and every value of `to_finish_ids`: the translated body of
-`for step in self.execution_planner` returns the model's new `finished` / `running` sets, calls `_process_step_result`
-exactly when the model consults `done`, and calls `_execute_step` exactly when the model records the step as started. -/
-theorem C01.gen_loop_body_is_scan (p : Plan) (s : St) (i : Nat) (st : Step) (toFinish : List Nat)
-    (hp : p[i]? = some st) (hh : halted s = false) (hne : st.outs ≠ []) :
-    genView st s i toFinish = .ok (scanView p s i st) := by
+/-- **The loop body of `compute`, including `_process_step_result`, is the model's `scan` event.**  For every plan, every
+state of the model that has not halted, every step with a non-empty uuid set, every value of `to_finish_ids` and every way
+the step's completion became visible (flag or result queue): the translated body of `for step in self.execution_planner`
+returns the model's new `finished` / `running` sets, enters `_process_step_result` exactly when the model consults `done`,
+collects the result and asks for the drop exactly when the model records a feature-group step as collected, and calls
+`_execute_step` exactly when the model records the step as started.  (`any_uuid` of a feature-group step is set: plan invariant.) -/
+theorem C01.gen_loop_body_is_scan (p : Plan) (s : St) (i : Nat) (st : Step) (toFinish : List Nat) (sd ua : Bool)
+    (hp : p[i]? = some st) (hh : halted s = false) (hne : st.outs ≠ []) (hdone : (sd || ua) = decide (i ∈ s.done)) :
+    genView st s toFinish sd ua = .ok (scanView p s i st) := by
   obtain ⟨u, us, hout⟩ : ∃ u us, st.outs = u :: us := by
     cases h : st.outs with
     | nil => exact absurd h hne
     | cons u us => exact ⟨u, us, rfl⟩
   have hcr : currentlyRunning st.outs s.running = some (decide (u ∈ s.running)) := by simp [currentlyRunning, hout]
-  unfold genView scanView computeLoopBody
+  unfold genView scanView computeLoopBody processStepResult
   simp only [toPStep, bind, Except.bind, C01.gen_is_step_done, C01.gen_currently_running, C01.gen_can_run,
     C01.gen_mark_finished, hcr, pure, Except.pure]
   by_cases hk : st.kind = Kind.fg <;>
   by_cases hd : isStepDone st.outs s.finished <;>
   by_cases hr : u ∈ s.running <;>
-  by_cases hdone : i ∈ s.done <;>
   by_cases hc : canRun st.req st.outs s.finished s.running <;>
-  simp [stepEv, hh, hp, hd, hcr, hr, hdone, hc, hk, markFinished]
+  cases sd <;> cases ua <;>
+  simp_all [stepEv, markFinished]
 
 /-- `to_finish_ids` after the visit: the step's uuids were added (this is what makes the return condition
 `to_finish_ids == finished_ids` talk about every step of the plan after one full pass) -/
-theorem C01.gen_loop_body_to_finish (stp : PStep) (f tf r : List Nat) (b : Bool) (log : List String) :
-    ∀ f' tf' r' log', computeLoopBody stp f tf r b log = .ok (f', tf', r', log') → tf' = PSet.update tf stp.uuids := by
-  intro f' tf' r' log' h
-  unfold computeLoopBody at h
+theorem C01.gen_loop_body_to_finish (stp : PStep) (f tf r : List Nat) (sd ua an : Bool) (log : List String) :
+    ∀ f' tf' r' sd' log', computeLoopBody stp f tf r sd ua an log = .ok (f', tf', r', sd', log') → tf' = PSet.update tf stp.uuids := by
+  intro f' tf' r' sd' log' h
+  unfold computeLoopBody processStepResult at h
   simp only [bind, Except.bind, C01.gen_is_step_done, C01.gen_currently_running, C01.gen_can_run,
     C01.gen_mark_finished, pure, Except.pure] at h
   repeat' split at h
@@ -121,5 +129,6 @@ theorem C01.gen_loop_body_to_finish (stp : PStep) (f tf r : List Nat) (b : Bool)
 
 /-- non-vacuity: a two-step plan, second step waiting for the first; visiting step 0 starts it -/
 example :
-    genView { outs := [1], req := [] } Sched.init 0 [] = .ok { finished := [], running := [1], processed := false, executed := true } := by
+    genView { outs := [1], req := [] } Sched.init [] false false =
+      .ok { finished := [], running := [1], processed := false, collectedFG := false, executed := true } := by
   rfl
